@@ -1,11 +1,660 @@
-//! C07 — not implemented yet (stub).
-use crate::engine::Ctx;
-use serde_json::Value;
+//! C07 — stability verdicts are sound and separate one-phase from two-phase feeds.
+//!
+//! Parts
+//! * `lattice` (seed independent): hydrocarbon pairs of gross2001 (C05 success domain) x T x x:
+//!   feeds at the 2 % margins and the middle of the envelope, feeds 2 % outside, flash phases.
+//! * `mix` (sampled): mixtures / T / x of C05; feeds inside (2 % margin), below the dew and above
+//!   the bubble pressure (margin 2-50 %), phases of converged flash / bubble / dew results;
+//!   stability options (max_iter 50-400, tol 1e-8..1e-5); feed root (stable / liquid / vapor).
+//! * `pure` (sampled): pure records, 40-point density grid from 0.2 rho_v to 1.1 rho_l.
+use super::c05::{
+    all_dilute, build_point, envelope, err_name, fresh, gen_mixpoint, gen_opt, ln_fugacity, p_of, pool_of, pressure_red, rec_name,
+    track, vle_like, worst_json, Built, MixKind, MixPoint, Pe2, SolverOpt, St, G2001_HC, LATTICE_T, LATTICE_X,
+};
+use crate::engine::{Ctx, Gen, Obs, PanicPolicy, PartCfg};
+use crate::model::*;
+use feos::core::{Contributions, DensityInitialization, EosError, PhaseEquilibrium, ReferenceSystem, SolverOptions, State};
+use ndarray::arr1;
+use quantity::*;
+use serde::{Deserialize, Serialize};
+use serde_json::{json, Value};
 
-pub fn run(_ctx: &Ctx) {
-    panic!("C07: check not implemented yet");
+pub const KF_LOW_P: &str = "C07/tpd-threshold-below-noise";
+/// Signature of KF_LOW_P: the recomputed |tpd| is below the noise of the value the analysis
+/// compares with ZERO_TPD = -1e-8:
+/// * |tpd| < 1e-7: the reported tpd is evaluated with ln phi of the previous iterate (second-order
+///   error in the last step, tolerance 1e-6..1e-3) - observed differences to the recomputed value ~1e-8;
+/// * |tpd| <= 1e-10 / p for reduced p < 1e-3: ln phi = mu_res/RT - ln Z inherits the relative
+///   pressure error of each state (absolute tolerance 1e-12 of the density iteration x 100).
+pub const LOW_P: f64 = 1e-3;
+pub const TPD_NOISE: f64 = 1e-7;
+pub fn low_p_noise(p: f64, d: f64) -> bool {
+    d.abs() < TPD_NOISE || (p > 0.0 && p < LOW_P && d.abs() <= 1e-10 / p)
 }
 
-pub fn replay(_ctx: &Ctx, _part: &str, _case: &Value) -> bool {
-    panic!("C07: check not implemented yet");
+/// pressure of a trial state vs the feed: density iteration (abstol 1e-12 reduced) x 100
+pub const TOL_P_REL: f64 = 1e-7;
+pub const TOL_P_ABS: f64 = 1e-10;
+/// an "unstable" verdict for a state that should be stable is attributed to another genuine phase
+/// split only if the recomputed tangent-plane distance is clearly negative: the flash / bubble /
+/// dew tolerances (1e-8 .. 1e-10 on ln K) bound |tpd| of a coexisting phase by ~1e-8
+pub const TPD_GENUINE: f64 = -1e-6;
+
+/// tangent-plane distance of `trial` to `feed` from fresh states, as the property states it:
+/// sum_i w_i (ln w_i + ln phi_i(trial) - ln z_i - ln phi_i(feed)) from `ln_phi` and `molefracs`.
+/// Second value: the same with fugacities f_i = x_i phi_i p (each state's own pressure), which
+/// removes the pressure mismatch ln(p_trial/p_feed) between the two states (diagnostic; also the
+/// only defined form for p <= 0).
+pub fn tpd(feed: &St, trial: &St) -> Option<(f64, f64)> {
+    let ff = fresh(feed)?;
+    let ft = fresh(trial)?;
+    let w = &trial.molefracs;
+    let z = &feed.molefracs;
+    let lf = ln_fugacity(&ff);
+    let lt = ln_fugacity(&ft);
+    let mut s_f = 0.0;
+    for i in 0..w.len() {
+        if w[i] > 0.0 {
+            s_f += w[i] * (lt[i] - lf[i]);
+        }
+    }
+    let (pf, pt) = (pressure_red(&ff), pressure_red(&ft));
+    let s_lit = if pf > 0.0 && pt > 0.0 {
+        let (pz, pw) = (ff.ln_phi(), ft.ln_phi());
+        let mut s = 0.0;
+        for i in 0..w.len() {
+            if w[i] > 0.0 {
+                s += w[i] * (w[i].ln() + pw[i] - z[i].ln() - pz[i]);
+            }
+        }
+        s
+    } else {
+        s_f
+    };
+    Some((s_lit, s_f))
+}
+
+/// soundness of every returned trial state; returns the recomputed tpd values
+pub fn check_trials(obs: &mut Obs, tag: &str, feed: &St, trials: &[St]) -> Vec<f64> {
+    let pf = pressure_red(feed);
+    let mut out = vec![];
+    for (k, tr) in trials.iter().enumerate() {
+        obs.ensure(tr.temperature == feed.temperature, || {
+            format!("{tag}: trial {k} temperature {} is not the feed's {}", tr.temperature, feed.temperature)
+        });
+        let pt = fresh(tr).map(|s| pressure_red(&s)).unwrap_or(f64::NAN);
+        track(&format!("{tag}: |p_trial - p_feed| / (1e-7 p + 1e-10)"), (pt - pf).abs() / (TOL_P_REL * pf.abs() + TOL_P_ABS));
+        obs.close(&format!("{tag}: trial {k} pressure equals the feed's"), pt, pf, TOL_P_REL, TOL_P_ABS);
+        match tpd(feed, tr) {
+            Some((d, d_f)) => {
+                if std::env::var("C05_DEBUG").is_ok() {
+                    println!(
+                        "[{tag}] trial {k}: tpd(ln phi) = {d:e}, tpd(fugacity) = {d_f:e}, p_trial = {pt:e}, p_feed = {pf:e}, rho_trial = {:e}, w = {:?}; feed rho = {:e} z = {:?}",
+                        tr.density.to_reduced(),
+                        tr.molefracs.to_vec(),
+                        feed.density.to_reduced(),
+                        feed.molefracs.to_vec()
+                    );
+                }
+                obs.count();
+                if !(d < 0.0) {
+                    let msg = format!(
+                        "{tag}: trial {k} (x = {:?}, rho = {:e}) has tangent-plane distance {d:e} >= 0 to the feed (fugacity form {d_f:e}; T = {}, p = {pf:e}, z = {:?})",
+                        tr.molefracs.to_vec(),
+                        tr.density.to_reduced(),
+                        feed.temperature,
+                        feed.molefracs.to_vec()
+                    );
+                    if low_p_noise(pf, d) {
+                        obs.class("known signature: returned trial state with 0 <= tpd below the noise of the analysis");
+                        obs.known_or_fail(KF_LOW_P, msg);
+                    } else {
+                        obs.fail(msg);
+                    }
+                }
+                if (d < 0.0) != (d_f < 0.0) {
+                    obs.class("sign of tpd depends on the pressure mismatch of trial and feed");
+                }
+                if (-1.0..=-1e-6).contains(&d) {
+                    obs.class("tpd in [-1,-1e-6]");
+                    obs.nontrivial();
+                } else if d < -1.0 {
+                    obs.class("tpd < -1");
+                } else {
+                    obs.class("tpd in (-1e-6, ...)");
+                }
+                out.push(d);
+            }
+            None => {
+                obs.fail(format!("{tag}: trial {k} cannot be rebuilt at its (T,V,N)"));
+            }
+        }
+    }
+    out
+}
+
+fn sa_class(obs: &mut Obs, tag: &str, r: &Result<Vec<St>, EosError>) {
+    match r {
+        Ok(v) => obs.class(format!("{tag}: {} trial state(s)", v.len())),
+        Err(e) => obs.class(format!("{tag}: Err {}", err_name(e))),
+    }
+}
+
+fn sa_err(obs: &mut Obs, tag: &str, e: &EosError, opts: &SolverOpt, strict_domain: bool) {
+    if opts.is_default() && strict_domain {
+        obs.fail(format!("{tag}: stability analysis failed with default options: {}", err_name(e)));
+    } else {
+        obs.inconclusive(format!("{tag}: stability analysis Err {}", err_name(e)));
+    }
+}
+
+/// trial state coincides with the partner phase of the equilibrium the analysed phase belongs to
+fn is_partner(trial: &St, partner: &St) -> bool {
+    let dx = (&trial.molefracs - &partner.molefracs).mapv(f64::abs).fold(0.0, |m: f64, v| m.max(*v));
+    let drho = (trial.density.to_reduced() / partner.density.to_reduced() - 1.0).abs();
+    dx < 1e-3 && drho < 1e-3
+}
+
+/// A state that must be reported stable. `partner`: the other phase of the converged result the
+/// state belongs to (None for feeds outside the envelope).
+///
+/// Every returned trial state must be sound (recomputed tpd < 0). A sound trial state proves the
+/// verdict "unstable" right, so the expectation "stable" can then only fail in two ways:
+/// * the trial state is the equilibrium partner itself: the converged result is not recognised
+///   as an equilibrium (the clause of the property) -> violation (known finding at vanishing p);
+/// * it is another state: the model has a further phase split there (a class, not a violation;
+///   on the strict domain - lattice, pure fluids - it is reported).
+pub fn expect_stable(obs: &mut Obs, tag: &str, s: &St, opts: &SolverOpt, strict_domain: bool, partner: Option<&St>) {
+    let r = s.stability_analysis(opts.to());
+    sa_class(obs, tag, &r);
+    match r {
+        Err(e) => sa_err(obs, tag, &e, opts, strict_domain),
+        Ok(trials) => {
+            obs.count();
+            if trials.is_empty() {
+                return;
+            }
+            let d = check_trials(obs, tag, s, &trials);
+            let p = pressure_red(s);
+            let msg = format!(
+                "{tag}: reported unstable ({} trial state(s), recomputed tpd {:?}) at T = {}, p = {:e}, x = {:?}",
+                trials.len(),
+                d,
+                s.temperature,
+                p,
+                s.molefracs.to_vec()
+            );
+            if d.len() != trials.len() {
+                return; // a trial state could not be rebuilt: already reported
+            }
+            // trial states whose |tpd| is above the noise of the analysis
+            let real: Vec<usize> = (0..d.len()).filter(|&k| !low_p_noise(p, d[k])).collect();
+            if real.is_empty() {
+                // signature: every returned trial state has |tpd| below the noise of the analysis
+                obs.class("known signature: stable state reported unstable with |tpd| below the noise of the analysis");
+                obs.known_or_fail(KF_LOW_P, msg);
+            } else if partner.map(|q| real.iter().any(|&k| is_partner(&trials[k], q))).unwrap_or(false) {
+                obs.fail(format!("{msg} - a trial state is the coexisting phase of the converged result"));
+            } else if strict_domain {
+                obs.fail(msg);
+            } else if real.iter().all(|&k| d[k] < 0.0) {
+                obs.class(format!("{tag}: unstable with sound trial states other than the partner phase: another phase split of the model"));
+                if real.iter().all(|&k| d[k] > TPD_GENUINE) {
+                    obs.class("another phase split with |tpd| < 1e-6");
+                }
+            }
+            // (unsound trial states have already been reported by check_trials)
+        }
+    }
+}
+
+/// a feed strictly inside the two-phase region: reported unstable with sound trial states
+pub fn expect_unstable(obs: &mut Obs, tag: &str, s: &St, opts: &SolverOpt, strict_domain: bool) -> bool {
+    let r = s.stability_analysis(opts.to());
+    sa_class(obs, tag, &r);
+    match r {
+        Err(e) => {
+            sa_err(obs, tag, &e, opts, strict_domain);
+            false
+        }
+        Ok(trials) => {
+            check_trials(obs, tag, s, &trials);
+            obs.ensure(!trials.is_empty(), || {
+                format!(
+                    "{tag}: feed strictly inside the two-phase region reported stable (T = {}, p = {:e}, x = {:?}, rho = {:e})",
+                    s.temperature,
+                    pressure_red(s),
+                    s.molefracs.to_vec(),
+                    s.density.to_reduced()
+                )
+            });
+            // is_stable is the same verdict through the second public entry point
+            if let Ok(v) = s.is_stable(opts.to()) {
+                obs.ensure(v == trials.is_empty(), || format!("{tag}: is_stable = {v} contradicts stability_analysis ({} trials)", trials.len()));
+            }
+            !trials.is_empty()
+        }
+    }
+}
+
+pub fn expect_split(obs: &mut Obs, tag: &str, feed: &St) {
+    let r = feed.tp_flash(None, SolverOptions::default(), None);
+    match &r {
+        Ok(pe) => {
+            obs.class(format!("{tag}: flash Ok"));
+            obs.ensure(!PhaseEquilibrium::is_trivial_solution(pe.vapor(), pe.liquid()), || format!("{tag}: flash returned one phase twice"));
+        }
+        Err(EosError::NoPhaseSplit) => obs.fail(format!(
+            "{tag}: tp_flash of a feed strictly inside the envelope returned NoPhaseSplit (T = {}, p = {:e}, x = {:?})",
+            feed.temperature,
+            pressure_red(feed),
+            feed.molefracs.to_vec()
+        )),
+        Err(e) => obs.class(format!("{tag}: flash Err {} (C05's success clause)", err_name(e))),
+    }
+}
+
+fn feed_state(b: &Built, p: f64, init: u8) -> Result<St, EosError> {
+    let di = match init {
+        1 => DensityInitialization::Liquid,
+        2 => DensityInitialization::Vapor,
+        _ => DensityInitialization::None,
+    };
+    State::new_npt(&b.eos, b.t, Pressure::from_reduced(p), &(b.x.clone() * MOL), di)
+}
+
+/// default envelope of a mixture point, or None (discard recorded)
+fn usable_envelope(b: &Built, obs: &mut Obs) -> Option<(Pe2, Pe2)> {
+    let (bub, dew) = envelope(b);
+    let (bub, dew) = match (bub, dew) {
+        (Ok(b), Ok(d)) => (b, d),
+        (Err(e), _) => {
+            obs.discard(format!("no bubble point: {}", err_name(&e)));
+            return None;
+        }
+        (_, Err(e)) => {
+            obs.discard(format!("no dew point: {}", err_name(&e)));
+            return None;
+        }
+    };
+    if all_dilute(&[bub.vapor(), bub.liquid()]) || all_dilute(&[dew.vapor(), dew.liquid()]) {
+        obs.discard("envelope is the zero-pressure gas pair (C05 finding)");
+        return None;
+    }
+    if !(vle_like(&bub) && vle_like(&dew)) {
+        obs.discard("bubble / dew result is not a vapor-liquid pair");
+        return None;
+    }
+    if !(p_of(&bub) >= p_of(&dew)) {
+        obs.discard("p_bubble < p_dew");
+        return None;
+    }
+    Some((bub, dew))
+}
+
+fn strict_kind(_mp: &MixPoint) -> bool {
+    // sampled mixtures carry random k_ij up to +0.08: even hydrocarbon mixtures then show
+    // liquid-liquid splits of the model; only the lattice (k_ij = 0) and pure fluids are strict
+    false
+}
+
+// ---------------------------------------------------------------------------------------
+// part `mix`
+// ---------------------------------------------------------------------------------------
+#[derive(Serialize, Deserialize, Clone, Debug)]
+pub struct MixCase {
+    pub mix: MixPoint,
+    /// 0 inside, 1 below the dew pressure, 2 above the bubble pressure, 3 phases of a flash,
+    /// 4 phases of the bubble and dew point, 5 within 2 % of the boundary (either side; soundness only)
+    pub region: u8,
+    /// inside / flash: position in [1.02 p_dew, 0.98 p_bub]; outside: margin in [0.02, 0.5]
+    pub u: f64,
+    pub opts: SolverOpt,
+    /// root of the feed state: 0 stable, 1 liquid, 2 vapor
+    pub init: u8,
+}
+
+pub fn decode_mix(g: &mut Gen) -> MixCase {
+    let mix = gen_mixpoint(g, 3);
+    let region = g.index(6) as u8;
+    let u = match region {
+        1 | 2 => g.log_range(0.02, 0.5),
+        5 => g.log_range(1e-6, 2e-2) * if g.bool(0.5) { -1.0 } else { 1.0 },
+        _ => g.unit(),
+    };
+    MixCase {
+        mix,
+        region,
+        u,
+        opts: gen_opt(g, 0.5, (50, 400), (1e-8, 1e-5)),
+        init: g.index(3) as u8,
+    }
+}
+
+pub fn check_mix(case: &MixCase, obs: &mut Obs) {
+    let Some(b) = build_point(&case.mix, obs, 1.8) else { return };
+    let Some((bub, dew)) = usable_envelope(&b, obs) else { return };
+    let (pb, pd) = (p_of(&bub), p_of(&dew));
+    let strict = strict_kind(&case.mix);
+    obs.class(if case.opts.is_default() { "default options" } else { "sampled options" });
+    match case.region % 6 {
+        5 => {
+            // closer to the boundary than the 2 % of the quantifier: no verdict is demanded, but every
+            // returned trial state must still be sound; u > 0: outside, u < 0: inside
+            let at_bubble = case.init != 2;
+            let p = if at_bubble { pb * (1.0 + case.u) } else { pd * (1.0 - case.u) };
+            let feed = match feed_state(&b, p, 0) {
+                Ok(s) => s,
+                Err(e) => {
+                    obs.discard(format!("feed state: {}", err_name(&e)));
+                    return;
+                }
+            };
+            let tag = if at_bubble { "near bubble" } else { "near dew" };
+            let r = feed.stability_analysis(case.opts.to());
+            sa_class(obs, tag, &r);
+            match r {
+                Ok(trials) => {
+                    obs.class(format!("{tag}: margin {} 1e-4, {}", if case.u.abs() < 1e-4 { "<" } else { ">=" }, if case.u > 0.0 { "outside" } else { "inside" }));
+                    check_trials(obs, tag, &feed, &trials);
+                }
+                Err(e) => obs.inconclusive(format!("{tag}: stability analysis Err {}", err_name(&e))),
+            }
+        }
+        0 => {
+            if !(pb / pd > 1.05) {
+                obs.class("narrow envelope (p_bub/p_dew <= 1.05): excluded");
+                return;
+            }
+            let (lo, hi) = (1.02 * pd, 0.98 * pb);
+            let p = lo + case.u * (hi - lo);
+            let feed = match feed_state(&b, p, case.init).or_else(|_| feed_state(&b, p, 0)) {
+                Ok(s) => s,
+                Err(e) => {
+                    obs.discard(format!("feed state: {}", err_name(&e)));
+                    return;
+                }
+            };
+            obs.class(format!("inside, feed root {}", if feed.density.to_reduced() > 0.5 * bub.liquid().density.to_reduced() { "liquid" } else { "vapor" }));
+            let near = (p / pd < 1.1) || (pb / p < 1.1);
+            if near {
+                obs.class("inside within 10 % of the boundary");
+                obs.nontrivial();
+            }
+            expect_unstable(obs, "inside", &feed, &case.opts, strict);
+            expect_split(obs, "inside", &feed);
+        }
+        r @ (1 | 2) => {
+            let p = if r == 1 { pd * (1.0 - case.u) } else { pb * (1.0 + case.u) };
+            let feed = match feed_state(&b, p, 0) {
+                Ok(s) => s,
+                Err(e) => {
+                    obs.discard(format!("feed state: {}", err_name(&e)));
+                    return;
+                }
+            };
+            let tag = if r == 1 { "below dew" } else { "above bubble" };
+            if case.u < 0.1 {
+                obs.class("outside within 10 % of the boundary");
+                obs.nontrivial();
+            }
+            expect_stable(obs, tag, &feed, &case.opts, strict, None);
+        }
+        3 => {
+            if !(pb / pd > 1.05) {
+                obs.class("narrow envelope (p_bub/p_dew <= 1.05): excluded");
+                return;
+            }
+            let p = 1.02 * pd + case.u * (0.98 * pb - 1.02 * pd);
+            match PhaseEquilibrium::tp_flash(&b.eos, b.t, Pressure::from_reduced(p), &(b.x.clone() * MOL), None, SolverOptions::default(), None) {
+                Ok(pe) => {
+                    obs.nontrivial();
+                    expect_stable(obs, "flash vapor", pe.vapor(), &case.opts, strict, Some(pe.liquid()));
+                    expect_stable(obs, "flash liquid", pe.liquid(), &case.opts, strict, Some(pe.vapor()));
+                }
+                Err(e) => obs.discard(format!("flash: {}", err_name(&e))),
+            }
+        }
+        _ => {
+            obs.nontrivial();
+            expect_stable(obs, "bubble point liquid", bub.liquid(), &case.opts, strict, Some(bub.vapor()));
+            expect_stable(obs, "bubble point vapor", bub.vapor(), &case.opts, strict, Some(bub.liquid()));
+            expect_stable(obs, "dew point liquid", dew.liquid(), &case.opts, strict, Some(dew.vapor()));
+            expect_stable(obs, "dew point vapor", dew.vapor(), &case.opts, strict, Some(dew.liquid()));
+        }
+    }
+}
+
+// ---------------------------------------------------------------------------------------
+// part `lattice`
+// ---------------------------------------------------------------------------------------
+#[derive(Serialize, Deserialize, Clone, Debug)]
+pub struct LatticeCase {
+    pub mix: MixPoint,
+}
+
+pub fn lattice_items(stride: usize) -> Vec<LatticeCase> {
+    super::c05::lattice_items(stride).into_iter().map(|c| LatticeCase { mix: c.mix }).collect()
+}
+
+pub fn check_lattice(case: &LatticeCase, obs: &mut Obs) {
+    let Some(b) = build_point(&case.mix, obs, 1.5) else { return };
+    let Some((bub, dew)) = usable_envelope(&b, obs) else { return };
+    let (pb, pd) = (p_of(&bub), p_of(&dew));
+    let d = SolverOpt::default();
+    // outside, 2 % margin
+    for (tag, p) in [("below dew", pd * 0.98), ("above bubble", pb * 1.02)] {
+        match feed_state(&b, p, 0) {
+            Ok(s) => expect_stable(obs, tag, &s, &d, true, None),
+            Err(e) => obs.discard(format!("feed state: {}", err_name(&e))),
+        }
+    }
+    // 1e-4 outside: no verdict demanded (closer than the 2 % of the quantifier), trial states must be sound
+    for (tag, p) in [("near dew", pd * (1.0 - 1e-4)), ("near bubble", pb * (1.0 + 1e-4))] {
+        if let Ok(s) = feed_state(&b, p, 0) {
+            let r = s.stability_analysis(SolverOptions::default());
+            sa_class(obs, tag, &r);
+            if let Ok(trials) = r {
+                check_trials(obs, tag, &s, &trials);
+            }
+        }
+    }
+    // equilibrium phases
+    expect_stable(obs, "bubble point liquid", bub.liquid(), &d, true, Some(bub.vapor()));
+    expect_stable(obs, "bubble point vapor", bub.vapor(), &d, true, Some(bub.liquid()));
+    expect_stable(obs, "dew point liquid", dew.liquid(), &d, true, Some(dew.vapor()));
+    expect_stable(obs, "dew point vapor", dew.vapor(), &d, true, Some(dew.liquid()));
+    if !(pb / pd > 1.05) {
+        obs.class("narrow envelope (p_bub/p_dew <= 1.05): inside excluded");
+        return;
+    }
+    obs.nontrivial();
+    for th in [0.0, 0.5, 1.0] {
+        let p = 1.02 * pd + th * (0.98 * pb - 1.02 * pd);
+        match feed_state(&b, p, 0) {
+            Ok(s) => {
+                expect_unstable(obs, "inside", &s, &d, true);
+                expect_split(obs, "inside", &s);
+            }
+            Err(e) => obs.discard(format!("feed state: {}", err_name(&e))),
+        }
+    }
+}
+
+// ---------------------------------------------------------------------------------------
+// part `pure`
+// ---------------------------------------------------------------------------------------
+#[derive(Serialize, Deserialize, Clone, Debug)]
+pub struct PureCase {
+    pub spec: ModelSpec,
+    /// T / T_c
+    pub t_rel: f64,
+    /// grid index 0..40 between 0.2 rho_v and 1.1 rho_l
+    pub k: usize,
+    /// geometric (false) or linear (true) grid
+    pub linear: bool,
+    pub opts: SolverOpt,
+}
+
+pub fn decode_pure(g: &mut Gen) -> PureCase {
+    let kind = g.pick(&[MixKind::PcSaftHc2001, MixKind::PcSaftHc, MixKind::PcSaftOther, MixKind::VrMie, MixKind::Gc]);
+    let pool = pool_of(kind);
+    let i = g.index(pool.recs.len());
+    let mut seg = pool.seg.clone();
+    if pool.family == Family::GcPcSaft {
+        let (sf, bf) = g.pick(&GC_HETERO_TABLES);
+        seg = Some((sf.to_string(), bf.map(|s| s.to_string())));
+    }
+    let spec = ModelSpec {
+        family: pool.family,
+        pure: vec![pool.recs[i].clone()],
+        binary: vec![],
+        seg,
+        opts: Opts::default(),
+        source: format!("{kind:?}"),
+    };
+    PureCase {
+        spec,
+        t_rel: g.range(0.5, 0.98),
+        k: g.index(40),
+        linear: g.bool(0.5),
+        opts: gen_opt(g, 0.5, (50, 400), (1e-8, 1e-5)),
+    }
+}
+
+pub fn check_pure(case: &PureCase, obs: &mut Obs) {
+    let spec = &case.spec;
+    obs.class(format!("source:{}", spec.source));
+    let eos = match spec.build() {
+        Ok(m) => m,
+        Err(e) => {
+            obs.discard(format!("build:{}", e.chars().take(40).collect::<String>()));
+            return;
+        }
+    };
+    let tc = pure_tc(spec, &eos, 0);
+    let t = case.t_rel * tc * KELVIN;
+    let vle = match PhaseEquilibrium::pure(&eos, t, None, SolverOptions::default()) {
+        Ok(v) => v,
+        Err(e) => {
+            obs.discard(format!("pure VLE: {}", err_name(&e)));
+            return;
+        }
+    };
+    let rv = vle.vapor().density.to_reduced();
+    let rl = vle.liquid().density.to_reduced();
+    if !(rv < 0.9 * rl) {
+        obs.discard("pure VLE phases too close");
+        return;
+    }
+    let (lo, hi) = (0.2 * rv, 1.1 * rl);
+    let f = case.k as f64 / 39.0;
+    let rho = if case.linear { lo + f * (hi - lo) } else { lo * (hi / lo).powf(f) };
+    let n = arr1(&[1.0]) * MOL;
+    let s = match State::new_nvt(&eos, t, n.sum() / Density::from_reduced(rho), &n) {
+        Ok(s) => s,
+        Err(e) => {
+            obs.discard(format!("state: {}", err_name(&e)));
+            return;
+        }
+    };
+    obs.class(if case.opts.is_default() { "default options" } else { "sampled options" });
+    let p = pressure_red(&s);
+    let dpdv = s.dp_dv(Contributions::Total).to_reduced();
+    // an Err of the analysis with default options is a violation for the PC-SAFT records only
+    // (SAFT-VR Mie: the vapor-like trial state of a compressed liquid fails in pressure_spinodal)
+    let strict = spec.family == Family::PcSaft;
+    if rho < 0.98 * rv {
+        if rho > 0.9 * rv {
+            obs.nontrivial();
+        }
+        obs.class("vapor side, outside");
+        expect_stable(obs, "pure vapor", &s, &case.opts, strict, None);
+    } else if rho > 1.02 * rl {
+        if rho < 1.1 * rl {
+            obs.nontrivial();
+        }
+        obs.class("liquid side, outside");
+        expect_stable(obs, "pure liquid", &s, &case.opts, strict, None);
+    } else if rho > 1.02 * rv && rho < 0.98 * rl {
+        let region = if dpdv > 0.0 { "mechanically unstable" } else { "metastable" };
+        if p > 0.0 {
+            obs.class(format!("inside, {region}, p > 0"));
+            if rho < 1.1 * rv || rho > 0.9 * rl {
+                obs.nontrivial();
+            }
+            expect_unstable(obs, "pure inside", &s, &case.opts, strict);
+        } else {
+            // ln phi = mu_res/RT - ln Z is undefined for p <= 0: the analysis cannot form the
+            // tangent-plane distance
+            obs.class(format!("inside, {region}, p <= 0"));
+            let r = s.stability_analysis(case.opts.to());
+            sa_class(obs, "pure inside p<=0", &r);
+            match r {
+                Ok(trials) => {
+                    check_trials(obs, "pure inside p<=0", &s, &trials);
+                    obs.ensure(!trials.is_empty(), || {
+                        format!("pure state between the coexisting densities with p = {p:e} <= 0 reported stable (T/Tc = {}, rho/rho_l = {:e})", case.t_rel, rho / rl)
+                    });
+                }
+                // no fugacity coefficient exists at p <= 0: a clean rejection is not a verdict
+                Err(e) => obs.inconclusive(format!("pure inside p<=0: stability analysis Err {}", err_name(&e))),
+            }
+        }
+    } else {
+        obs.class("within 2 % of the binodal: no verdict demanded");
+    }
+}
+
+// ---------------------------------------------------------------------------------------
+const PART_MIX: PartCfg = PartCfg {
+    name: "mix",
+    genome_len: 48,
+    cases_quick: 8000,
+    cases_thorough: 800_000,
+    panic: PanicPolicy::Count,
+};
+const PART_PURE: PartCfg = PartCfg {
+    name: "pure",
+    genome_len: 24,
+    cases_quick: 8000,
+    cases_thorough: 800_000,
+    panic: PanicPolicy::Count,
+};
+
+pub fn run(ctx: &Ctx) {
+    ctx.set_rule("lattice (seed independent): hydrocarbon pairs of gross2001 with T_c ratio < 1.5 (quick: every 8th pair, thorough: all) x T/T_c,low in {0.65..0.9} x x_1 in {0.05..0.95}: feeds at p_dew 0.98 and p_bub 1.02 (stable), feeds 1e-4 outside either boundary (soundness of trial states only), the four bubble/dew phases (stable), feeds at 1.02 p_dew, mid, 0.98 p_bub (unstable + flash splits; envelopes narrower than 5 % excluded and counted). mix (sampled): mixtures/T/x of C05 (PC-SAFT hydrocarbons, other PC-SAFT records, gc-PC-SAFT, SAFT-VR Mie; 2-3 components, T_c ratio < 1.8, T/T_c,low in [0.6,0.95], x_i >= 0.02) x region {inside [1.02 p_dew, 0.98 p_bub], below dew and above bubble with margin log-uniform in [0.02,0.5], phases of a converged flash, phases of the bubble and dew point, feeds within 2 % of the boundary (margin log-uniform 1e-6..2e-2, either side; soundness of the trial states only)} x stability options (max_iter 50-400, tol 1e-8..1e-5, p 0.5) x feed root (stable/liquid/vapor). pure (sampled): pure records of the same pools, T/T_c in [0.5,0.98], 40-point geometric or linear density grid from 0.2 rho_v to 1.1 rho_l. Non-trivial: a returned trial state with recomputed tpd in [-1,-1e-6], or a verdict within 10 % of the phase boundary, or an equilibrium phase. Distinct by hash of the canonical case JSON.");
+    ctx.assume("tangent-plane distance recomputed as sum_i w_i (ln f_i(trial) - ln f_i(feed)) with ln f_i = ln(x_i phi_i p) from ln_phi, molefracs and pressure of fresh State::new_nvt copies (C01/C02 validate ln_phi); strictly negative is demanded, no tolerance");
+    ctx.assume("trial state temperature bitwise equal to the feed's, pressure to 1e-7 relative + 1e-10 reduced (100 x the density-iteration tolerance)");
+    ctx.assume("phase boundary from default bubble_point / dew_point (C05 checks them); cases whose envelope is not a vapor-liquid pair are discarded");
+    ctx.assume("a sound trial state (recomputed tpd < 0) proves an 'unstable' verdict right; a phase of a converged result reported unstable is therefore a violation iff a returned trial state is its own coexisting phase (density and composition within 1e-3), otherwise the model has a further phase split there (class 'another phase split', sampled k_ij up to +-0.08); on the lattice (gross2001 hydrocarbon pairs, k_ij = 0) and for pure fluids any 'unstable' verdict for an expected-stable state is reported");
+    ctx.assume("stability_analysis returning Err counts as a violation only with default options on the lattice and for pure fluids at p > 0; elsewhere it is counted as inconclusive (pure states with p <= 0 have no fugacity coefficient: the analysis rejects them with InvalidState)");
+    let parts = std::env::var("C07_PARTS").unwrap_or_else(|_| "lattice,mix,pure".into());
+    let on = |p: &str| parts.split(',').any(|q| q == p);
+    let stride = std::env::var("C07_STRIDE").ok().and_then(|s| s.parse().ok()).unwrap_or(ctx.pick(8, 1));
+    if on("lattice") {
+        let items = lattice_items(stride);
+        ctx.extra("lattice_pairs", json!(items.len() / (LATTICE_T.len() * LATTICE_X.len())));
+        ctx.run_lattice("lattice", items, PanicPolicy::Count, stride == 1, &check_lattice);
+    }
+    if on("mix") {
+        ctx.run_sampled(&super::c05::scaled(&PART_MIX), &decode_mix, &check_mix);
+    }
+    if on("pure") {
+        ctx.run_sampled(&super::c05::scaled(&PART_PURE), &decode_pure, &check_pure);
+    }
+    let _ = (&*G2001_HC, rec_name);
+    ctx.extra("worst_observed", worst_json());
+}
+
+pub fn replay(ctx: &Ctx, part: &str, case: &Value) -> bool {
+    match part {
+        "lattice" => ctx.replay_case::<LatticeCase>(case, &check_lattice),
+        "mix" => ctx.replay_case::<MixCase>(case, &check_mix),
+        "pure" => ctx.replay_case::<PureCase>(case, &check_pure),
+        other => {
+            eprintln!("unknown part {other}");
+            std::process::exit(2);
+        }
+    }
 }
